@@ -742,6 +742,15 @@ func (e *specEnv) callExpr(x *ast.CallExpr) sval {
 	case "abs":
 		a := e.eval(x.Args[0])
 		return sval{Val{app("abs", a.v[0])}, tInt, ""}
+	case "quo":
+		// truncated quotient (Go's / on integers, big.Int.Quo)
+		a := e.eval(x.Args[0])
+		b := e.eval(x.Args[1])
+		return sval{Val{goQuo(a.v[0], b.v[0], false)}, tInt, ""}
+	case "rem":
+		a := e.eval(x.Args[0])
+		b := e.eval(x.Args[1])
+		return sval{Val{goRem(a.v[0], b.v[0], false)}, tInt, ""}
 	case "min":
 		a := e.eval(x.Args[0])
 		b := e.eval(x.Args[1])
